@@ -423,10 +423,540 @@ def run_layer_rule(ctx: Ctx, res: Result) -> None:
         res.add("C13.R6", f"{an.relpath}::LayerRule.are_named::every requested layer is looked up", ok, detail, where(an, an.node), kind="dominance")
 
 
+# --------------------------------------------------------------------------- R2: DiagramRule (file check, start/end tags)
+
+
+START_TAG, END_TAG = "@startuml", "@enduml"
+
+
+def _const_texts(deps: frozenset) -> str:
+    return " ".join(sorted(d[6:] for d in deps if d.startswith("const:")))
+
+
+def run_diagram_rule(ctx: Ctx, res: Result) -> None:
+    repo = ctx.repo
+    dr = ctx.public_class("DiagramRule")
+    from_file = ctx.method(dr, "from_file")
+    aa = ctx.method(dr, "assert_applies")
+    file_keys = [k for k, v in final_writes(ctx.run(from_file)).items() if isinstance(v, Opq) and v.kind == "param"]
+    if len(file_keys) != 1:
+        res.undecide("C13.R2", f"{dr.module.relpath}::DiagramRule::state roles", f"cannot tell where from_file() stores the diagram path ({file_keys})", dr.module.relpath)
+        return
+    k_file = file_keys[0]
+    sym = ctx.run(aa)
+    bad = bad_outcomes(sym)
+    if not any(o.kind == "verdict" for o in bad):
+        res.undecide("C13.R2", repo.key(aa, "evaluation point"), "no call into an AssertionError site is reachable from DiagramRule.assert_applies", where(aa, aa.node))
+        return
+    want = atom(f"{k_file} is None")
+    hits = [o for o in bad if consistent(o, want)]
+    # reading the diagram without a path is no configuration error either: the check has to come before the file is opened
+    opened = [ev for ev in sym.events if ev.kind == "call" and ev.name == "open" and sat(f_and([ev.cond, want]))]
+    ok = not hits and not opened
+    if ok:
+        detail = "a diagram rule without a file raises before the diagram is read or evaluated"
+    elif opened:
+        detail = f"`{norm(opened[0].node, 50)}` in {opened[0].ctx.qualname} runs although no diagram file was given (`{show(want)}`): the missing file is not rejected with a configuration error before parsing"
+    else:
+        detail = f"a diagram rule without a file is not rejected: with `{show(want)}` {describe_outcome(hits[0])} is reached"
+    res.add("C13.R2", f"{aa.relpath}::DiagramRule.assert_applies::file check dominates parsing", ok, detail, where_o(hits[0]) if hits else where(aa, aa.node), kind="dominance")
+    # start / end tags: a search for the tags whose failure leads to a raise and nowhere else
+    searches = [ev for ev in sym.events if ev.kind == "call" and isinstance(ev.result, Opq) and ev.result.kind in ("search", "find", "index")]
+    tagged = [ev for ev in searches if START_TAG in _const_texts(ev.result.deps) or END_TAG in _const_texts(ev.result.deps)]
+    construct = f"{dr.module.relpath}::DiagramRule.assert_applies::missing tags raise"
+    if not tagged:
+        res.undecide("C13.R2", construct, f"no search of the diagram text for {START_TAG} / {END_TAG} (re.search / re.match / str.find / str.index) is reachable from DiagramRule.assert_applies: the tag extraction was not recognised", where(aa, aa.node))
+        return
+    ok, detail, loc = False, "", where(aa, aa.node)
+    for ev in tagged:
+        r = ev.result
+        texts = _const_texts(r.deps)
+        both = START_TAG in texts and END_TAG in texts
+        if r.kind == "index":
+            caught = any(h in ("ValueError", "Exception", "BaseException", "<bare>") for h in ev.handlers)
+            if not caught and all(implies(o.cond, ev.cond) for o in bad) and both:
+                ok, detail = True, f"`{norm(ev.node, 50)}` raises for a text without the tags on every path to the evaluation"
+                break
+            continue
+        nf = atom(f"{r.key} is None") if r.kind == "search" else atom(f"notfound({r.key})")
+        escaping = [o for o in bad if consistent(o, nf)]
+        rejected = any(sat(f_and([x.cond, nf])) for x in rejections(sym))
+        if not escaping and rejected and both:
+            ok, detail = True, f"a diagram without {START_TAG} / {END_TAG} (`{norm(ev.node, 50)}` finds nothing) raises {', '.join(sorted({x.exc.split('.')[-1] for x in rejections(sym) if sat(f_and([x.cond, nf]))}))}"
+            break
+        if escaping and not detail:
+            o = escaping[0]
+            loc = f"{ev.ctx.relpath}:{getattr(ev.node, 'lineno', 0)}"
+            if implies(o.cond, ev.cond):
+                detail = f"when `{norm(ev.node, 50)}` finds no tags, {describe_outcome(o)} is still reached: a diagram without start/end tags no longer raises a parsing error"
+            else:
+                detail = f"{describe_outcome(o)} is reachable on a path on which the tag search `{norm(ev.node, 50)}` does not run in this call (`{show(ev.cond)[:100]}` does not hold): nothing rejects a diagram without start/end tags there"
+    if not ok and not detail:
+        res.undecide("C13.R2", construct, f"the searches for the diagram tags ({', '.join(norm(ev.node, 40) for ev in tagged[:3])}) do not depend on both {START_TAG} and {END_TAG}, or their failure is not tested in a recognised way", where(aa, aa.node))
+        return
+    res.add("C13.R2", construct, ok, detail, loc, kind="dominance")
+
+
+# --------------------------------------------------------------------------- R2: entry point options
+
+
+def run_entry_point(ctx: Ctx, res: Result) -> None:
+    ge = ctx.public_func("get_evaluable_architecture")
+    params = ge.param_names
+    needed = ["root_path", "module_path", "exclusions", "exclude_external_libraries", "regex_exclusions", "external_exclusions", "regex_external_exclusions"]
+    if any(p not in params for p in needed):
+        raise AnalysisError(f"public signature of get_evaluable_architecture changed: {params}")
+    sym = ctx.run(ge, descend=lambda caller, callee: callee.module is ge.module)
+    rets = [o for o in sym.outcomes if o.kind in ("return", "verdict")]
+    if not rets:
+        res.undecide("C13.R2", f"{ge.relpath}::get_evaluable_architecture::returns", "no normal return found in the symbolic run", where(ge, ge.node))
+        return
+    b = lambda p: atom(f"bool({p})")  # noqa: E731
+    expected = {
+        "exclusions xor regex_exclusions": f_and([b("regex_exclusions"), b("exclusions")]),
+        "external_exclusions xor regex_external_exclusions": f_and([b("regex_external_exclusions"), b("external_exclusions")]),
+        "external patterns need included externals": f_and([b("exclude_external_libraries"), f_or([b("external_exclusions"), b("regex_external_exclusions")])]),
+    }
+    for label, want in expected.items():
+        hits = [o for o in rets if consistent(o, want)]
+        ae = [o for o in sym.outcomes if o.kind == "raise" and is_assertion_error(ctx.repo, o.exc) and consistent(o, want)]
+        ok = not hits and not ae
+        res.add(
+            "C13.R2",
+            f"{ge.relpath}::{ge.qualname}::guard {label}",
+            ok,
+            f"rejected before the architecture is built: {show(want)}" if ok else f"the option combination `{show(want)}` (on the caller's values) is no longer rejected: {describe_outcome((hits or ae)[0])} is reached",
+            where_o((hits or ae)[0]) if (hits or ae) else where(ge, ge.node),
+            kind="decision-table",
+        )
+    # module_path outside root_path: pathlib's relative_to (raises ValueError) on every path, uncaught
+    rel = [ev for ev in sym.events if ev.kind == "call" and ev.name == "relative_to" and ev.recv is not None and "module_path" in sym.deps(ev.recv) and ev.args and "root_path" in sym.deps(ev.args[0])]
+    ok, detail = False, "module_path.relative_to(root_path) is no longer evaluated: a module_path outside root_path is not rejected before the scan"
+    for ev in rel:
+        if any(h in ("ValueError", "Exception", "BaseException", "<bare>") for h in ev.handlers):
+            detail = f"the ValueError of `{norm(ev.node, 50)}` is caught: a module_path outside root_path is tolerated"
+            continue
+        esc = [o for o in rets if not implies(o.cond, ev.cond)]
+        if not esc:
+            ok, detail = True, f"`{norm(ev.node, 50)}` (ValueError for a module_path outside root_path) is evaluated on every path to the scan"
+            break
+        detail = f"`{norm(ev.node, 50)}` is evaluated only under `{show(ev.cond)[:120]}`: {describe_outcome(esc[0])} is reachable without it, a module_path outside root_path is tolerated"
+    res.add("C13.R2", f"{ge.relpath}::{ge.qualname}::module_path inside root_path", ok, detail, where(ge, ge.node), kind="dominance")
+
+
+# --------------------------------------------------------------------------- R6: unknown names reach a raising lookup
+
+
+QUERY_METHODS = ("get_dependencies", "any_dependencies_from_dependents_to_modules_other_than_dependent_upons", "any_other_dependencies_on_dependent_upons_than_from_dependents")
+CATCHES_LOOKUP = {"NetworkXError", "NetworkXException", "NodeNotFound", "KeyError", "LookupError", "Exception", "BaseException", "<bare>"}
+
+
+def _filter_kind(ctx: Ctx, fi: FuncInfo, p: str) -> str | None:
+    """'scalar' / 'collection' for parameters typed (collections of) module filters, 'graph' for the graph parameter."""
+    try:
+        t = ctx.T.param_type(fi, p)
+    except Exception:  # noqa: BLE001
+        return None
+    def is_filter(m) -> bool:
+        if m[0] != "cls":
+            return False
+        ci = ctx.repo.classes.get(m[1])
+        return ci is not None and any(c.name in ("ModuleFilter",) for c in ctx.repo.mro(ci))
+    def is_graph(m) -> bool:
+        if m[0] != "cls":
+            return False
+        ci = ctx.repo.classes.get(m[1])
+        return ci is not None and any(c.name == "AbstractGraph" for c in ctx.repo.mro(ci))
+    ms = members(t)
+    if any(is_graph(m) for m in ms):
+        return "graph"
+    if any(is_filter(m) for m in ms):
+        return "scalar"
+    for m in ms:
+        if m[0] == "b" and m[1] in ("set", "frozenset", "list", "seq", "iter", "tuple") and m[2] and any(is_filter(x) for a in m[2] for x in members(a)):
+            return "collection"
+    return None
+
+
+def search_functions(ctx: Ctx) -> list[FuncInfo]:
+    """Module-level searches that the query methods of the EvaluableArchitecture implementation hand module filters to."""
+    repo = ctx.repo
+    proto = ctx.public_class("EvaluableArchitecture")
+    impls = [c for c in repo.classes.values() if c is not proto and proto in repo.mro(c) and all((m := repo.lookup_method(c, q)) is not None and not m.is_abstract for q in QUERY_METHODS)]
+    out: list[FuncInfo] = []
+    for c in impls:
+        seen: list[FuncInfo] = []
+        work = [repo.lookup_method(c, q) for q in QUERY_METHODS]
+        while work:
+            f = work.pop()
+            if f in seen:
+                continue
+            seen.append(f)
+            for g in callees_of(repo, f, byname=False):
+                if g.cls is c or (g.outer is not None and g.cls is c):
+                    work.append(g)
+                elif g.cls is None and g.outer is None and g not in out:
+                    kinds = [_filter_kind(ctx, g, p) for p in g.param_names]
+                    if "graph" in kinds and ("scalar" in kinds or "collection" in kinds):
+                        out.append(g)
+    return out
+
+
+def _is_raising_lookup(ev: S.Event) -> bool:
+    return ev.kind == "call" and ev.name in S.RAISING_NX and any(m[0] == "lib" and m[1].startswith("networkx") for m in members(ev.recv_type))
+
+
+def run_lookups(ctx: Ctx, res: Result) -> None:
+    repo = ctx.repo
+    funcs = search_functions(ctx)
+    n = 0
+    for fi in funcs:
+        sym = ctx.run(fi, stop=None)
+        rets = [o for o in sym.outcomes if o.kind == "return"]
+        if not rets:
+            res.undecide("C13.R6", repo.key(fi, "returns"), "no normal return found in the symbolic run", where(fi, fi.node))
+            continue
+        lookups = [ev for ev in sym.events if _is_raising_lookup(ev) and ev.args]
+        kinds = {p: _filter_kind(ctx, fi, p) for p in fi.param_names}
+        scalars = [p for p, k in kinds.items() if k == "scalar"]
+        for p, k in kinds.items():
+            if k not in ("scalar", "collection"):
+                continue
+            n += 1
+            mine = [ev for ev in lookups if sym.deps(ev.args[0]) == frozenset({p})]
+            live = [ev for ev in mine if not (set(ev.handlers) & CATCHES_LOOKUP)]
+            ok, detail, loc = False, "", where(fi, fi.node)
+            if k == "scalar":
+                direct = [ev for ev in live if not ev.loops]
+                failing = [o for o in rets if not any(implies(o.cond, ev.cond) for ev in direct)]
+                ok = not failing
+                if ok:
+                    detail = f"`{p}` reaches networkx' raising {direct[0].name}() on every path before the function returns"
+                else:
+                    o = failing[0]
+                    loc = where_o(o)
+                    detail = f"{describe_outcome(o)} is reachable without `{p}` having been handed to a raising graph lookup"
+            else:
+                good = None
+                for ev in live:
+                    if not ev.loops:
+                        continue
+                    lc = ev.loops[0]
+                    if lc.elem is None or not lc.elem.meta or lc.elem.meta[0] != p:
+                        continue
+                    skip = f_or([atom("{} == {}".format(*sorted([lc.elem.key, q]))) for q in scalars])
+                    pre = S.conj(lc.pre_path)
+                    if all(not o.loops and implies(o.cond, pre) for o in rets) and implies(f_and([pre, lc.iter_atom, f_not(skip)]), ev.cond):
+                        good = ev
+                        break
+                ok = good is not None
+                if ok:
+                    detail = f"every element of `{p}` is handed to networkx' raising {good.name}() on every path (skipped at most when equal to {' / '.join(scalars) or 'nothing'}, which is looked up itself)"
+                else:
+                    detail = f"an element of `{p}` can escape the raising graph lookup"
+            if not ok:
+                if mine and not live:
+                    detail += f": the error of `{norm(mine[0].node, 50)}` for an unknown node is caught by a handler ({', '.join(sorted(set(mine[0].handlers) & CATCHES_LOOKUP))})"
+                elif live:
+                    detail += f" (the lookup `{norm(live[0].node, 40)}` in {live[0].ctx.qualname} only happens under `{show(live[0].cond)[:160]}`)"
+                detail += " - a rule naming a module that does not exist gets a verdict instead of a lookup error"
+            res.add("C13.R6", f"{fi.relpath}::{fi.qualname}::lookup of {p}", ok, detail, loc, kind="dominance")
+    res.floor("C13.R6", 3, n)
+
+
+# --------------------------------------------------------------------------- R3 / R4: who raises AssertionError, who catches what
+
+
+GRAPH_ACCESS = {"successors", "predecessors", "get_edge_data", "direct_successor_nodes", "direct_predecessor_nodes", "parent_child_relationship", "neighbors", "in_edges", "out_edges"}
+LOOKUP_ERRORS = {"KeyError", "LookupError", "IndexError", "NetworkXError", "NetworkXException", "NodeNotFound", "ValueError", "TypeError", "AttributeError", "RuntimeError"}
+
+
+class VerdictTaint:
+    """Which values derive from an evaluation ('EV': anything computed from / with an EvaluableArchitecture argument) or from a
+    caught AssertionError ('AE').  Flow-insensitive per function, fields per class, inter-procedural through resolved calls,
+    deliberately generous (any call that receives a tainted value returns a tainted value)."""
+
+    def __init__(self, repo: Repo) -> None:
+        self.repo = repo
+        self.T = types_of(repo)
+        self.names: dict[str, dict[str, frozenset]] = {}  # function -> local name -> tags
+        self.fields: dict[tuple[str, str], frozenset] = {}
+        self.rets: dict[str, frozenset] = {}
+        self.changed = True
+        proto = [c for c in repo.classes.values() if c.name == "EvaluableArchitecture"]
+        self.ev_classes = {c.fq for c in repo.classes.values() if any(p in repo.mro(c) for p in proto)}
+        for f in repo.all_functions():
+            env: dict[str, frozenset] = {}
+            if not isinstance(f.node, ast.Lambda):
+                for prm in f.params:
+                    try:
+                        t = self.T.param_type(f, prm.arg)
+                    except Exception:  # noqa: BLE001
+                        t = ("unknown",)
+                    if any(m[0] == "cls" and m[1] in self.ev_classes for m in members(t)):
+                        env[prm.arg] = frozenset({"EV"})
+            for n in own_nodes(f.node):
+                if isinstance(n, ast.ExceptHandler) and n.name and n.type is not None:
+                    tys = [(repo.resolve_name(f.module, e) or dotted(e)).split(".")[-1] for e in (n.type.elts if isinstance(n.type, ast.Tuple) else [n.type])]
+                    if "AssertionError" in tys:
+                        env[n.name] = frozenset({"AE"})
+            self.names[f.fq] = env
+        rounds = 0
+        while self.changed and rounds < 12:
+            self.changed = False
+            rounds += 1
+            for f in repo.all_functions():
+                self._function(f)
+
+    def _join(self, table: dict, k, tags: frozenset) -> None:
+        if tags and not tags <= table.get(k, frozenset()):
+            table[k] = table.get(k, frozenset()) | tags
+            self.changed = True
+
+    def tags(self, f: FuncInfo, e: ast.AST | None) -> frozenset:
+        if e is None:
+            return frozenset()
+        env = self.names.get(f.fq, {})
+        out = frozenset()
+        for n in ast.walk(e):
+            if isinstance(n, ast.Name) and isinstance(n.ctx, ast.Load):
+                out |= env.get(n.id, frozenset())
+                if f.outer is not None:
+                    out |= self.names.get(f.outer.fq, {}).get(n.id, frozenset())
+            elif isinstance(n, ast.Attribute) and isinstance(n.ctx, ast.Load) and isinstance(n.value, ast.Name) and n.value.id in ("self", "cls") and f.cls is not None:
+                for c in self.repo.mro(f.cls):
+                    out |= self.fields.get((c.fq, n.attr), frozenset())
+            elif isinstance(n, ast.Call):
+                try:
+                    cs, _how = self.T.callees(f, n, byname_fallback=False)
+                except Exception:  # noqa: BLE001
+                    cs = []
+                for c in cs:
+                    out |= self.rets.get(c.fq, frozenset())
+        return out
+
+    def _bind(self, f: FuncInfo, target: ast.AST, tags: frozenset) -> None:
+        if not tags:
+            return
+        for n in ast.walk(target):
+            if isinstance(n, ast.Name):
+                self._join(self.names[f.fq], n.id, tags)
+            elif isinstance(n, ast.Attribute) and isinstance(n.value, ast.Name) and n.value.id == "self" and f.cls is not None:
+                self._join(self.fields, (f.cls.fq, n.attr), tags)
+
+    def _function(self, f: FuncInfo) -> None:
+        for n in own_nodes(f.node):
+            if isinstance(n, ast.Assign):
+                t = self.tags(f, n.value)
+                for tg in n.targets:
+                    self._bind(f, tg, t)
+            elif isinstance(n, (ast.AnnAssign, ast.AugAssign, ast.NamedExpr)) and n.value is not None:
+                self._bind(f, n.target, self.tags(f, n.value))
+            elif isinstance(n, (ast.For, ast.AsyncFor)):
+                self._bind(f, n.target, self.tags(f, n.iter))
+            elif isinstance(n, ast.comprehension):
+                self._bind(f, n.target, self.tags(f, n.iter))
+            elif isinstance(n, (ast.With, ast.AsyncWith)):
+                for it in n.items:
+                    if it.optional_vars is not None:
+                        self._bind(f, it.optional_vars, self.tags(f, it.context_expr))
+            elif isinstance(n, ast.Return) and n.value is not None:
+                self._join(self.rets, f.fq, self.tags(f, n.value))
+            elif isinstance(n, (ast.Yield, ast.YieldFrom)) and n.value is not None:
+                self._join(self.rets, f.fq, self.tags(f, n.value))
+            elif isinstance(n, ast.Call):
+                argt = frozenset()
+                for a in [*n.args, *[k.value for k in n.keywords]]:
+                    argt |= self.tags(f, a)
+                if isinstance(n.func, ast.Attribute):
+                    recv_t = self.tags(f, n.func.value)
+                    if n.func.attr in S.COLL_MUTATORS and argt:
+                        self._bind(f, n.func.value, argt)  # x.append(tainted) taints x
+                    argt_all = argt | recv_t
+                else:
+                    argt_all = argt
+                try:
+                    cs, _how = self.T.callees(f, n, byname_fallback=False)
+                except Exception:  # noqa: BLE001
+                    cs = []
+                for c in cs:
+                    params = c.param_names[1:] if (c.is_method and not c.is_staticmethod) else c.param_names
+                    for i, a in enumerate(n.args):
+                        if i < len(params):
+                            self._join(self.names.setdefault(c.fq, {}), params[i], self.tags(f, a))
+                    for k in n.keywords:
+                        if k.arg in c.param_names:
+                            self._join(self.names.setdefault(c.fq, {}), k.arg, self.tags(f, k.value))
+                    # a call that receives evaluation data yields evaluation data
+                    self._join(self.rets, c.fq, frozenset())
+        if isinstance(f.node, ast.Lambda):
+            self._join(self.rets, f.fq, self.tags(f, f.node.body))
+
+    def expr(self, f: FuncInfo, e: ast.AST | None) -> frozenset:
+        """Tags of an expression, calls with tainted inputs included."""
+        if e is None:
+            return frozenset()
+        out = self.tags(f, e)
+        for n in ast.walk(e):
+            if isinstance(n, ast.Call):
+                for a in [*n.args, *[k.value for k in n.keywords], *([n.func.value] if isinstance(n.func, ast.Attribute) else [])]:
+                    out |= self.tags(f, a)
+        return out
+
+
+def assert_statements(repo: Repo) -> list[tuple[FuncInfo | None, ast.Assert, str]]:
+    out = []
+    for mod in repo.modules.values():
+        for n in ast.walk(mod.tree):
+            if isinstance(n, ast.Assert):
+                out.append((repo.func_of(n), n, mod.relpath))
+    return out
+
+
+def handlers(repo: Repo) -> list[tuple[FuncInfo, ast.ExceptHandler]]:
+    out = []
+    for f in repo.all_functions():
+        for n in own_nodes(f.node):
+            if isinstance(n, ast.ExceptHandler):
+                out.append((f, n))
+    return out
+
+
+def _try_key(h: ast.ExceptHandler) -> str:
+    t = parent(h)
+    return norm(t.body[0], 60) if isinstance(t, ast.Try) and t.body else ""
+
+
+def _handler_types(repo: Repo, f: FuncInfo, h: ast.ExceptHandler) -> list[str]:
+    if h.type is None:
+        return ["<bare>"]
+    return [(repo.resolve_name(f.module, e) or dotted(e)).split(".")[-1] for e in (h.type.elts if isinstance(h.type, ast.Tuple) else [h.type])]
+
+
+def assertion_raises(repo: Repo) -> list[tuple[FuncInfo, ast.Raise]]:
+    return [(f, r) for f in repo.all_functions() for r in own_nodes(f.node) if isinstance(r, ast.Raise) and r.exc is not None and is_assertion_error(repo, exception_class_name(repo, f, r.exc))]
+
+
+def handler_verdict(repo: Repo, taint: VerdictTaint, f: FuncInfo, h: ast.ExceptHandler) -> tuple[bool, str]:
+    T = types_of(repo)
+    types_ = _handler_types(repo, f, h)
+    t = parent(h)
+    body = t.body if isinstance(t, ast.Try) else []
+    repo_calls = []
+    graph_access = []
+    for s in body:
+        for c in ast.walk(s):
+            if isinstance(c, ast.Call):
+                try:
+                    cs, how = T.callees(f, c, byname_fallback=False)
+                except Exception:  # noqa: BLE001
+                    cs = []
+                if cs:
+                    repo_calls.append(norm(c, 50))
+                if isinstance(c.func, ast.Attribute) and c.func.attr in GRAPH_ACCESS:
+                    graph_access.append(norm(c, 50))
+            if isinstance(c, ast.Subscript) and "graph" in norm(c.value).lower():
+                graph_access.append(norm(c, 50))
+    if any(x in ("<bare>", "Exception", "BaseException") for x in types_):
+        return False, f"broad handler `except {', '.join(types_)}` in {f.qualname}: configuration and lookup errors raised below it are swallowed or turned into something else"
+    if "AssertionError" in types_:
+        # legitimate only where the caught verdict is passed on: some AssertionError raise of the same class / function depends on it
+        scope = [(g, r) for g, r in assertion_raises(repo) if g is f or (f.cls is not None and g.cls is f.cls)]
+        passed_on = [(g, r) for g, r in scope if "AE" in (taint.expr(g, r.exc) | frozenset().union(*[taint.expr(g, e) for e, _p in conds(g, r)] or [frozenset()]))]
+        if not passed_on or h.name is None:
+            return False, f"{f.qualname} catches AssertionError without passing the caught verdict on in an AssertionError of its own: a violated rule can be turned into a pass"
+        return True, f"the caught AssertionError is passed on by `{norm(passed_on[0][1], 60)}` in {passed_on[0][0].qualname} (aggregation, see C07.R2)"
+    if any(x in LOOKUP_ERRORS for x in types_):
+        if repo_calls or graph_access:
+            return False, f"`except {', '.join(types_)}` in {f.qualname} wraps {', '.join((graph_access + repo_calls)[:3])}: the lookup error that rejects an unknown module name is swallowed and a verdict is produced"
+        return True, f"`except {', '.join(types_)}` wraps only builtin container operations ({_try_key(h)})"
+    return True, f"`except {', '.join(types_)}` does not interfere with configuration or lookup errors"
+
+
+def run_r3_r4(ctx: Ctx, res: Result) -> None:
+    repo = ctx.repo
+    taint = VerdictTaint(repo)
+    n = 0
+    for f in repo.all_functions():
+        for r in own_nodes(f.node):
+            if not isinstance(r, ast.Raise):
+                continue
+            n += 1
+            if r.exc is None:
+                if not any(isinstance(a, ast.ExceptHandler) for a in ancestors(r)):
+                    res.add("C13.R3", repo.key(f, r) + " [bare raise]", False, "bare `raise` outside a handler", where(f, r))
+                continue
+            name = exception_class_name(repo, f, r.exc)
+            if not is_assertion_error(repo, name):
+                res.add("C13.R3", repo.key(f, r), True, f"raises {name.split('.')[-1]}", where(f, r), nontrivial=False, kind="effect")
+                continue
+            tg = taint.expr(f, r.exc)
+            for e, _pol in conds(f, r):
+                tg |= taint.expr(f, e)
+            ok = bool(tg)
+            res.add(
+                "C13.R3",
+                repo.key(f, r),
+                ok,
+                f"raises AssertionError from {'evaluation results' if 'EV' in tg else 'caught verdicts'} (verdict site)" if ok else f"{f.qualname} raises AssertionError (`{norm(r, 80)}`) although neither its condition nor its message derives from an evaluation: a configuration / lookup problem would be indistinguishable from an architectural violation",
+                where(f, r),
+                kind="effect",
+            )
+    res.floor("C13.R3", 5, n)
+    asserts = assert_statements(repo)
+    for f, a, rel in asserts:
+        res.add("C13.R3", (repo.key(f, a) if f else f"{rel}::<module>::{norm(a)}"), False, f"`{norm(a, 80)}`: an `assert` statement raises AssertionError for a non-architectural reason (and disappears under -O)", f"{rel}:{a.lineno}", kind="effect")
+    res.add("C13.R3", "src::no assert statement", not asserts, f"{len(repo.modules)} modules contain no `assert` statement", kind="effect")
+    # positive fixture for the assert / handler detectors (their expected count on the real tree is zero)
+    import shutil
+    import tempfile
+    from pathlib import Path
+
+    fx = Path(__file__).resolve().parents[1] / "fixtures" / "raises_and_handlers.py"
+    tmp = Path(tempfile.mkdtemp(prefix="pta-fixture-"))
+    try:
+        (tmp / "src" / "pytestarch").mkdir(parents=True)
+        shutil.copy(fx, tmp / "src" / "pytestarch" / "fixture_raises.py")
+        frepo = Repo(tmp)
+        ftaint = VerdictTaint(frepo)
+        if len(assert_statements(frepo)) != 1 or len([h for h in handlers(frepo) if handler_verdict(frepo, ftaint, *h)[0] is False]) != 3:
+            raise AnalysisError("C13 fixture: assert / handler detectors do not recognise engine/fixtures/raises_and_handlers.py")
+        res.add("C13.R4", "fixture::engine/fixtures/raises_and_handlers.py", True, "positive fixture recognised (1 assert, 3 offending handlers)", nontrivial=False)
+    finally:
+        shutil.rmtree(tmp, ignore_errors=True)
+    for f, h in handlers(repo):
+        ok, detail = handler_verdict(repo, taint, f, h)
+        res.add("C13.R4", repo.key(f, h) + f" [{_try_key(h)}]", ok, detail, where(f, h), kind="effect")
+
+
 def run(repo: Repo) -> Result:
     res = Result("C13")
+    res.explanation = (
+        "Decides, per public entry point (not per call history), that undefined or incomplete specifications are rejected before a verdict "
+        "can exist. The entry points are interpreted symbolically (rules/c13_sym.py: private helpers followed, literal tables unrolled, "
+        "first worklist iteration peeled); an obligation holds when no normal return / entry into an AssertionError site / AssertionError "
+        "raise is consistent with the invalid specification: (R7) Rule without verb, import type, subject or object; (R1) 'anything' with "
+        "a verb other than should_not, and no rewrite of the configuration hides a value from a later check; (R5) should_not with another "
+        "verb (requirement class and pipeline); (R2) module lists before a side was selected, LayerRule methods before layers_that / "
+        "based_on, DiagramRule without file or tags, invalid option combinations and module_path outside root_path of "
+        "get_evaluable_architecture; (R6) every module filter handed to a search reaches networkx' raising successors/predecessors on "
+        "every path, every requested layer name is a raising subscript; (R3) AssertionError is raised only from evaluation results or "
+        "caught verdicts, no assert statement; (R4) no broad handler, no lookup-error handler around graph accesses or repo calls, caught "
+        "AssertionErrors are passed on."
+    )
+    res.not_decided = "arbitrary call sequences: each obligation is about one call of one public method on an arbitrary object state; histories that defeat a check through state the check does not read are out of scope (see C16.R2). Regex filters: C11.R2."
+    res.trusted_base = [
+        "networkx raises NetworkXError for successors/predecessors of a missing node",
+        "pathlib.Path.relative_to raises ValueError",
+        "dict subscripts raise KeyError",
+        "the symbolic executor over-approximates path conditions (unknown constructs become free atoms / havoc)",
+    ]
     ctx = Ctx(repo)
-    roles = rule_roles(ctx, res)
-    run_side_guard(ctx, res, roles)
+    run_rule_pipeline(ctx, res)
+    run_side_guard(ctx, res, rule_roles(ctx, Result("C13")))
     run_layer_rule(ctx, res)
+    run_diagram_rule(ctx, res)
+    run_entry_point(ctx, res)
+    run_r3_r4(ctx, res)
+    run_lookups(ctx, res)
     return res
